@@ -126,7 +126,7 @@ def _class_has(items, ch: str) -> bool:
 
 def admits(tree, gname: str, ch: str, dotall: bool = False) -> bool:
     """Does some character position inside the named group accept `ch`?  (structural question on the sre parse tree)"""
-    gid = dict(tree.state.groupdict).get(gname)
+    gid = gname if isinstance(gname, int) else dict(tree.state.groupdict).get(gname)
     found = False
 
     def walk(seq, inside: bool) -> None:
@@ -171,6 +171,14 @@ class StdRegex:
         m = self.c.search(s)
         return None if m is None else (m.start(), m.end(), m.groupdict())
 
+    def spans(self, s: str, how: str) -> list:
+        if how in ("finditer", "findall", "split", "sub", "subn"):
+            ms = list(self.c.finditer(s))
+        else:
+            m = getattr(self.c, how)(s)
+            ms = [m] if m is not None else []
+        return [(m.start(), m.end(), {gid: m.span(gid) for gid in range(1, self.c.groups + 1) if m.span(gid) != (-1, -1)}) for m in ms]
+
     def match_at(self, s: str, pos: int):
         m = self.c.match(s, pos)
         return None if m is None else (m.end(), {gid: m.span(gid) for gid in range(1, self.c.groups + 1) if m.span(gid) != (-1, -1)})
@@ -180,7 +188,9 @@ class LinePattern:
     def __init__(self, p: A.Pattern, site: A.Site, samples: list[str], res: Result) -> None:
         self.p = p
         self.site = site
-        self.roles: dict[str, set[str]] = {}
+        self.roles: dict = {}
+        self.used: set = set()  # groups (names, or indexes of unnamed groups) the code reads
+        self._tree = None
         self.own = True
         try:
             self.rx = Regex(p.text, p.flags)
@@ -198,23 +208,46 @@ class LinePattern:
     def tree(self):
         import re._parser as P
 
-        return P.parse(self.p.text, self.p.flags)
+        if self._tree is None:
+            self._tree = P.parse(self.p.text, self.p.flags)
+        return self._tree
 
     def matches(self, line: str) -> list[tuple[int, int, dict]]:
+        """(start, end, {group name or index of an unnamed group: captured text or None}) per match, as the call site would see them."""
         how = self.site.how
-        if how in ("finditer", "findall", "split", "sub", "subn"):
-            return self.rx.finditer(line)
-        if how == "search":
-            r = self.rx.search(line)
-            return [r] if r is not None else []
-        r = self.rx.match_at(line, 0)
-        if r is None or (how == "fullmatch" and r[0] != len(line)):
-            return []
-        end, g = r
-        return [(0, end, {name: (line[g[gid][0] : g[gid][1]] if gid in g else None) for name, gid in self.rx.groupindex.items()})]
+        if isinstance(self.rx, StdRegex):
+            raw = self.rx.spans(line, how)
+        else:
+            raw = []
+            if how in ("finditer", "findall", "split", "sub", "subn", "search"):
+                pos = 0
+                while pos <= len(line):
+                    hit = None
+                    for p in range(pos, len(line) + 1):
+                        r = self.rx.match_at(line, p)
+                        if r is not None:
+                            hit = (p, r[0], r[1])
+                            break
+                    if hit is None:
+                        break
+                    raw.append(hit)
+                    if how == "search":
+                        break
+                    pos = hit[1] if hit[1] > hit[0] else hit[1] + 1
+            else:
+                r = self.rx.match_at(line, 0)
+                if r is not None and (how != "fullmatch" or r[0] == len(line)):
+                    raw.append((0, r[0], r[1]))
+        byidx = {i: n for n, i in self.rx.groupindex.items()}
+        ngroups = self.tree().state.groups - 1
+        out = []
+        for a, b, g in raw:
+            caps = {byidx.get(i, i): (line[g[i][0] : g[i][1]] if i in g else None) for i in range(1, ngroups + 1)}
+            out.append((a, b, caps))
+        return out
 
     def groups(self, role: str) -> list[str]:
-        return sorted(g for g, rs in self.roles.items() if rs == {role})
+        return sorted((g for g, rs in self.roles.items() if rs == {role}), key=str)
 
     def where(self) -> str:
         return f"{self.site.fi.relpath}:{getattr(self.site.node, 'lineno', 0)}" if self.site.fi else ""
@@ -303,9 +336,10 @@ def run(repo: Repo) -> Result:
         site_of.setdefault(s.pattern.key, s)
     lps: list[LinePattern] = []
     for pk, p in interp.patterns.items():
-        used = {a[2] for a in all_atoms if a[0] == "g" and a[1] == pk and isinstance(a[2], str)}
+        used = {a[2] for a in all_atoms if a[0] == "g" and a[1] == pk and a[2] != 0}
         if used and pk in site_of:
             lps.append(LinePattern(p, site_of[pk], samples, res))
+            lps[-1].used = used
     if not lps:
         res.undecide("C06.R1", parse_key, f"no regular expression with named groups feeds the parse result (patterns seen: {len(interp.patterns)}; unmodelled: {interp.unknown[:3]})", parse_where)
         return res
@@ -316,6 +350,8 @@ def run(repo: Repo) -> Result:
             for a, b, caps in lp.matches(line):
                 if a == 0 and b == len(line):
                     for g, c in caps.items():
+                        if g not in lp.used:
+                            continue
                         if c == name:
                             lp.roles.setdefault(g, set()).add("name")
                         elif alias and c == alias:
@@ -324,11 +360,20 @@ def run(repo: Repo) -> Result:
             for a, b, caps in lp.matches(line):
                 if a == 0 and b == len(line):
                     for g, c in caps.items():
+                        if g not in lp.used:
+                            continue
                         if c == tail:
                             lp.roles.setdefault(g, set()).add("tail")
                         elif c == head:
                             lp.roles.setdefault(g, set()).add("head")
-    res.analysed["group_roles"] = {lp.key(): {g: sorted(r) for g, r in lp.roles.items()} for lp in lps}
+    ignored = [lp for lp in lps if not lp.roles]
+    lps = [lp for lp in lps if lp.roles]
+    for lp in ignored:
+        res.observe(f"C06.R1: pattern `{lp.p.text[:60]}` of {lp.key()} binds no part of a documented line (not a line pattern)")
+    if not lps:
+        res.undecide("C06.R1", parse_key, f"no reconstructed pattern matches a documented line as a whole (unmodelled: {(interp.lost_patterns or interp.unknown)[:3]})", parse_where)
+        return res
+    res.analysed["group_roles"] = {lp.key(): {str(g): sorted(r) for g, r in lp.roles.items()} for lp in lps}
     for lp in lps:
         for g, rs in lp.roles.items():
             if len(rs) > 1:
